@@ -5,6 +5,7 @@ import (
 	"encoding/json"
 	"fmt"
 	"os"
+	"path/filepath"
 	"runtime"
 	"runtime/debug"
 	"strconv"
@@ -59,6 +60,55 @@ func runOne(t *testing.T, sc *Scenario, seed uint64, replay []int, wantTrace boo
 			ch.Log = func(v int) { fmt.Fprintf(bw, "%d\n", v) }
 			choiceLogFlush = func() { bw.Flush() }
 			defer func() { bw.Flush(); f.Close(); choiceLogFlush = nil }()
+		}
+	}
+	// no garbage collection while a run is in its bubble: with one P a collection cycle
+	// preempts the running goroutine and schedules mark workers by real time, which reorders
+	// the bubble's goroutines from one execution of a seed to the next (DESIGN §8, 27). The
+	// heap is collected between runs instead.
+	if !sc.NoBubble {
+		runtime.GC()
+		oldGC := debug.SetGCPercent(-1)
+		defer debug.SetGCPercent(oldGC)
+	}
+	if yl := os.Getenv("VERIF_YIELDLOG"); yl != "" {
+		if f, err := os.Create(yl); err == nil {
+			bw := bufio.NewWriterSize(f, 1<<20)
+			yieldDebug = func(kind string) {
+				var pcs [8]uintptr
+				m := runtime.Callers(4, pcs[:])
+				fr := runtime.CallersFrames(pcs[:m])
+				where := ""
+				for i := 0; i < 4; i++ {
+					f, more := fr.Next()
+					where += fmt.Sprintf(" %s:%d", filepath.Base(f.Function), f.Line)
+					if !more {
+						break
+					}
+				}
+				fmt.Fprintf(bw, "%s g%d%s\n", kind, verifGoid(), where)
+			}
+			defer func() { yieldDebug = nil; bw.Flush(); f.Close() }()
+		}
+	}
+	if dl := os.Getenv("VERIF_DRAWLOG"); dl != "" {
+		if f, err := os.Create(dl); err == nil {
+			bw := bufio.NewWriter(f)
+			drawDebug = func(pos, n, v int) {
+				var pcs [12]uintptr
+				m := runtime.Callers(3, pcs[:])
+				fr := runtime.CallersFrames(pcs[:m])
+				where := ""
+				for i := 0; i < 9; i++ {
+					f, more := fr.Next()
+					where += fmt.Sprintf(" %s:%d", filepath.Base(f.Function), f.Line)
+					if !more {
+						break
+					}
+				}
+				fmt.Fprintf(bw, "%d n=%d v=%d%s\n", pos, n, v, where)
+			}
+			defer func() { drawDebug = nil; bw.Flush(); f.Close() }()
 		}
 	}
 	var k *K
